@@ -246,11 +246,14 @@ def run_pool(jobs, outdir, wall_cap):
 
 
 # ---------------------------------------------------------------- minimisation (ddmin over lines)
-def ddmin(units, test, budget=120):
-    """Classic ddmin. test(list)->True if still failing with the same signature."""
+def ddmin(units, test, budget=120, wall=float(os.environ.get("VERIF_DDMIN_WALL_S", "300"))):
+    """Classic ddmin. test(list)->True if still failing with the same signature.
+    Bounded by a number of replays and by wall time: a hang costs a full replay timeout per probe, and a
+    violation that is reported late is worth less than one that is reported a little larger."""
     n = 2
     calls = 0
-    while len(units) >= 2 and calls < budget:
+    t0 = time.time()
+    while len(units) >= 2 and calls < budget and time.time() - t0 < wall:
         chunk = max(1, len(units) // n)
         subsets = [units[i:i + chunk] for i in range(0, len(units), chunk)]
         reduced = False
@@ -262,7 +265,7 @@ def ddmin(units, test, budget=120):
                 n = max(n - 1, 2)
                 reduced = True
                 break
-            if calls >= budget:
+            if calls >= budget or time.time() - t0 >= wall:
                 break
         if not reduced:
             if n >= len(units):
